@@ -131,15 +131,18 @@ R.model("Application", fields={"g_requests": "Seq[Message]", "g_answers": "Seq[M
 R.model("FailedAvp", builtin=True, fields={})
 R.contract("FailedAvp.__new__", trusted=True, params={"additional_avps": "List[Avp]"}, returns="FailedAvp", allocates=True)
 R.model("Node", fields={"g_dlv_app": "Seq[Application]", "g_dlv_msg": "Seq[Message]",
-                        "g_ans_app": "Seq[Application]", "g_ans_msg": "Seq[Message]"})
+                        "g_ans_app": "Seq[Application]", "g_ans_msg": "Seq[Message]",
+                        "g_ho_failed": "int"})       # ghost: number of hand-overs to an application that raised
 R.contract("Application.receive_request", trusted=True, params={"self": "Application", "message": "Message"},
            requires=[("registered", "not is_none(self._node)")],
            raises=[Raise("Exception", "True", "may")],
-           ghost_modifies=["some(self._node).g_dlv_app", "some(self._node).g_dlv_msg"],
+           ghost_modifies=["some(self._node).g_dlv_app", "some(self._node).g_dlv_msg", "some(self._node).g_ho_failed"],
            ghost_ensures=["items(some(self._node).g_dlv_app) == old(items(some(self._node).g_dlv_app)) + [self]",
-                          "items(some(self._node).g_dlv_msg) == old(items(some(self._node).g_dlv_msg)) + [message]"],
+                          "items(some(self._node).g_dlv_msg) == old(items(some(self._node).g_dlv_msg)) + [message]",
+                          "some(self._node).g_ho_failed == old(some(self._node).g_ho_failed)"],
            ensures_exc={"Exception": ["items(some(self._node).g_dlv_app) == old(items(some(self._node).g_dlv_app)) + [self]",
-                                      "items(some(self._node).g_dlv_msg) == old(items(some(self._node).g_dlv_msg)) + [message]"]},
+                                      "items(some(self._node).g_dlv_msg) == old(items(some(self._node).g_dlv_msg)) + [message]",
+                                      "some(self._node).g_ho_failed == old(some(self._node).g_ho_failed) + 1"]},
            note="behavioural contract of the user-facing hook: hands the request to the application (ghost log), may raise "
                 "anything, transmits nothing synchronously (assumption about user handlers; ThreadingApplication only enqueues)")
 R.contract("Application.receive_answer", trusted=True, params={"self": "Application", "message": "Message"},
@@ -284,11 +287,12 @@ R.contract("Node._receive_app_request", params={"self": "Node", "conn": "PeerCon
                      _OWA_ONLY.replace("COND", "len(out(conn)) == old(len(out(conn))) + 1")),
                     ("node-answer-releases-the-origin-record", "implies(len(out(conn)) == old(len(out(conn))) + 1, "
                                                                "not (mkey(message) in self._origin_waiting_answer))"),
-                    ("windows-stay-well-formed", "win_ok(self, o)")],
+                    ("windows-stay-well-formed", "win_ok(self, o)"),
+                    ("a-failed-hand-over-is-never-swallowed", "self.g_ho_failed == old(self.g_ho_failed)")],
            raises=[Raise("Exception", "True", "may")],
            ensures_exc={"Exception": [("failing-sends-nothing", "nothing_sent(conn)"), ("failing-keeps-windows", "sa_untouched(self)"),
                                       ("only-a-request-handler-fails", "not no_delivery(self)")]},
-           ghost_modifies=["conn._write_msg_queue.g_put", "self.g_dlv_app", "self.g_dlv_msg"],
+           ghost_modifies=["conn._write_msg_queue.g_put", "self.g_dlv_app", "self.g_dlv_msg", "self.g_ho_failed"],
            modifies=_ANS_MODS + ["dict:self._peer_waiting_answer",
                                  "dict:self._peer_waiting_answer[conn.host_identity] if conn.host_identity in self._peer_waiting_answer"],
            props=["C08", "C07", "C09"])
@@ -376,9 +380,13 @@ R.contract("Node._receive_message", params={"self": "Node", "conn": "PeerConnect
                      "new_out(conn).result_code == 5005 or new_out(conn).result_code == 5012)"),
                     ("base-protocol-never-reaches-applications",
                      "implies(msg.header.command_code == 257 or msg.header.command_code == 280 or "
-                     "msg.header.command_code == 282, no_delivery(self))")],
+                     "msg.header.command_code == 282, no_delivery(self))"),
+                    ("a-request-whose-hand-over-to-the-application-failed-is-answered-5012",
+                     "implies(is_req(msg) and self.g_ho_failed > old(self.g_ho_failed), "
+                     "len(out(conn)) == old(len(out(conn))) + 1 and new_out(conn).result_code == 5012)")],
            raises=[],
            ghost_modifies=["conn._write_msg_queue.g_put", "self.g_dlv_app", "self.g_dlv_msg", "self.g_ans_app", "self.g_ans_msg",
+                           "self.g_ho_failed",
                            "conn.g_close_calls", "conn.g_close_reason", "*PeerConnection.g_attn"],
            modifies=["dict:self._sent_answers", "dict:self._origin_waiting_answer", "*deque:int", "dict:self._peer_waiting_answer",
                      "dict:self._app_waiting_answer", "dict:self.socket_peers", "*list:Peer",
@@ -389,7 +397,7 @@ R.contract("Node._receive_message", params={"self": "Node", "conn": "PeerConnect
                      "*Peer.connection", "*Peer.disconnect_reason", "*Peer.last_connect", "*Peer.last_disconnect",
                      "dict:self._half_ready_connections", "dict:self.connections", "dict:self.peer_sockets",
                      "*Event.flag", "*StoppableThread.stopped", "*Socket.closed", "*WaitingMessage.answer"],
-           props=["C07", "C17", "C14"],
+           props=["C07", "C17", "C14", "C08"],
            note="message handler of every connection: raises nothing (C14), at most one answer and only for requests (C07), "
                 "T-flag duplicates rejected without delivery (C17)")
 
